@@ -18,6 +18,8 @@ fn lookup(name: &str) -> Option<Box<dyn Sim>> {
 		"lnsim" => Some(Box::new(lnsim::LnSim)),
 		"transportsim" => Some(Box::new(transportsim::TransportSim)),
 		"codecsim" => Some(Box::new(codecsim::CodecSim)),
+		"gossipsim" => Some(Box::new(gossipsim::GossipSim)),
+		"persistsim" => Some(Box::new(persistsim::PersistSim)),
 		"blocksyncsim" => Some(Box::new(blocksyncsim::BlockSyncSim)),
 		_ => None,
 	}
@@ -64,6 +66,10 @@ fn main() {
 					None => replay_main(p, &lookup),
 				}
 			},
+			None => 2,
+		},
+		Some("shrinkfile") => match args.get(2) {
+			Some(p) => simcore::runner::shrinkfile_main(p, &lookup),
 			None => 2,
 		},
 		Some("worker") => {
